@@ -491,7 +491,11 @@ def pack2d(RVARA, verbose=False):
     SEXP = 0.0
     # compute the required scaling exponent
     if RMAX != 0.0:
-        SEXP = LOG(RMAX) / LOG(np.float32(2.))
+        # exact for powers of two; the single precision quotient
+        # log(RMAX)/log(2) can fall just below the integer (e.g., 2**15
+        # gives 14.999999), which selects an exponent one too small and
+        # lets the packed byte wrap around
+        SEXP = np.log2(np.float64(RMAX))
 
     NEXP = INT(SEXP)
     # positive or whole number scaling round up for lower precision
